@@ -102,10 +102,23 @@ func VerifTrace() (uint64, uint64) { return verifTrace, verifYields }
 // VerifYield is called by instrumented code before synchronisation operations.
 func VerifYield(site uint32) {
 	x := atomic.Load(&verifYieldProb)
+	gp := getg()
 	if x == 0 {
+		// no seeded yields in this run: the spin guard still has to work
+		// (a busy loop in the code under test would otherwise never let the
+		// simulated clock advance)
+		if gp.bubble != nil {
+			if verifSpin++; verifSpin > 200000 {
+				verifSpinBreaks++
+				sh := (verifSpin - 200000) / 512
+				if sh > 10 {
+					sh = 10
+				}
+				timeSleep(1000 << sh)
+			}
+		}
 		return
 	}
-	gp := getg()
 	verifTrace = (verifTrace ^ uint64(site)) * 0x100000001b3
 	verifEvAdd(1, uint64(site))
 	if verifSpin++; verifSpin > 200000 && gp.bubble != nil {
